@@ -162,10 +162,138 @@ Proof.
   induction v using gval_ind'; cbn [gwf gsig gsingle_ok]; intros Hw; try reflexivity.
   - now apply andb_true_iff in Hw as [Hw _].
   - apply andb_true_iff in Hw as [Hw _]. assumption.
-  - apply andb_true_iff in Hw as [Hne Hw]. destruct l as [|x l]; [discriminate|]. cbn [map].
-    change (match gsig x :: map gsig l with [] => false | _ => true end) with true. cbn [andb].
-    induction H as [|y r Hy Hr IH]; [reflexivity|]. cbn [forallb] in Hw. apply andb_true_iff in Hw as [H1 H2].
-    cbn [map]. rewrite Hy by assumption. cbn [andb]. destruct r; [reflexivity|]. apply IH; [discriminate|assumption].
+  - apply andb_true_iff in Hw as [Hne Hw]. apply andb_true_iff. split; [destruct l; [discriminate|reflexivity]|].
+    clear Hne. induction H as [|y r Hy Hr IH]; [reflexivity|]. cbn [forallb] in Hw. apply andb_true_iff in Hw as [H1 H2].
+    cbn [map]. rewrite Hy by assumption. cbn [andb]. apply IH; assumption.
   - assumption.
   - apply andb_true_iff in Hw as [Hw _]. now apply andb_true_iff in Hw as [Hw _].
 Qed.
+
+(* ---------- basic types: the D-Bus serializer writes padding + the fixed-size encoding ---------- *)
+Definition dstate_of (st : gstate) : sstate :=
+  {| s_cfg := {| c_gv := true; c_oaa := false |}; s_e := g_e st; s_pos0 := gabs st; s_out := [];
+     s_sig := g_sig st; s_vsign := None; s_dep := g_dep st; s_fds := g_fds st |}.
+Lemma dbus_basic_run st sx al n x :
+  DBus.Ser.ser sx (dstate_of st) = basic (dstate_of st) al n x ->
+  dbus_basic sx st = Ok (gwr st (pad (gabs st) al ++ enc (g_e st) n x)).
+Proof.
+  intros H. unfold dbus_basic. fold (dstate_of st). rewrite H. unfold basic, padded, add_padding, wr, abs_pos, written, dstate_of.
+  cbn [bind fst s_out s_fds s_e s_pos0 set_out]. rewrite len_nil, N.add_0_r. cbn [app].
+  destruct st; reflexivity.
+Qed.
+
+Section P.
+  Variable e : endian.
+
+  (* node-local side conditions: outside the known classes, the node's encoding is not astronomically large,
+     no file descriptor, signatures in their parenthesised form *)
+  Definition node_pre (v : gval) : bool :=
+    negb (node_known e v) && (len (gvb e v) <? 2 ^ 60)
+    && match v with GFd _ => false | GSigv _ np => negb np | _ => true end.
+  Definition pre (v : gval) : bool := all_nodes node_pre v.
+
+  Definition good (v : gval) : Prop := forall st,
+    g_e st = e -> gwf v = true -> pre v = true -> g_sig st = gsig v -> g_vsign st = None ->
+    dep_ok (g_dep st) -> gfits (g_dep st) v ->
+    gser (sval_of v) st = Ok (gwr st (pad (gabs st) (galign (gsig v)) ++ gvb e v)).
+
+  Ltac basic_case :=
+    intros st He Hw Hp Hs Hv Hd Hf; cbn [sval_of gser gsig galign gvb];
+    erewrite dbus_basic_run by (cbn [DBus.Ser.ser dstate_of s_sig]; rewrite ?Hs; reflexivity); rewrite He; reflexivity.
+
+  Lemma good_i16 z : good (GI16 z). Proof. basic_case. Qed.
+  Lemma good_u16 z : good (GU16 z). Proof. basic_case. Qed.
+  Lemma good_i32 z : good (GI32 z). Proof. basic_case. Qed.
+  Lemma good_u32 z : good (GU32 z). Proof. basic_case. Qed.
+  Lemma good_i64 z : good (GI64 z). Proof. basic_case. Qed.
+  Lemma good_u64 z : good (GU64 z). Proof. basic_case. Qed.
+  Lemma good_f64 z : good (GF64 z). Proof. basic_case. Qed.
+  Lemma good_u8 n : good (GU8 n).
+  Proof.
+    intros st He Hw Hp Hs Hv Hd Hf; cbn [sval_of gser gsig galign gvb].
+    erewrite dbus_basic_run by reflexivity. rewrite pad_1. cbn [app]. do 2 f_equal.
+    destruct (g_e st); cbn; unfold nb; rewrite N.mod_mod by lia; reflexivity.
+  Qed.
+  (* booleans and descriptors are excluded by [pre] *)
+  Lemma good_bool b : good (GBool b).
+  Proof. intros st He Hw Hp. unfold pre in Hp. cbn in Hp. discriminate. Qed.
+  Lemma good_fd h : good (GFd h).
+  Proof.
+    intros st He Hw Hp. unfold pre in Hp. cbn [all_nodes] in Hp. unfold node_pre in Hp.
+    rewrite andb_true_r in Hp. apply andb_true_iff in Hp as [_ Hp]. discriminate.
+  Qed.
+
+  Lemma good_str s : good (GStr s).
+  Proof.
+    intros st He Hw Hp Hs Hv Hd Hf; cbn [sval_of gser gsig galign gvb].
+    unfold gser_str. rewrite Hs. rewrite gwr_gwr, pad_1. reflexivity.
+  Qed.
+  Lemma good_path s : good (GPath s).
+  Proof.
+    intros st He Hw Hp Hs Hv Hd Hf; cbn [sval_of gser gsig galign gvb].
+    unfold gser_str. rewrite Hs. rewrite gwr_gwr, pad_1. reflexivity.
+  Qed.
+  Lemma good_sigv g np : good (GSigv g np).
+  Proof.
+    intros st He Hw Hp Hs Hv Hd Hf; cbn [sval_of gser gsig galign gvb].
+    unfold pre in Hp. cbn [all_nodes] in Hp. unfold node_pre in Hp. rewrite andb_true_r in Hp.
+    apply andb_true_iff in Hp as [_ Hp]. destruct np; [discriminate|].
+    unfold gser_str. rewrite Hs. rewrite gwr_gwr, pad_1. reflexivity.
+  Qed.
+
+  (* ---------- what [pre] and [gwf] say at a node ---------- *)
+  Lemma all_nodes_head p v : all_nodes p v = true -> p v = true.
+  Proof. destruct v; cbn [all_nodes]; intros H; try (apply andb_true_iff in H as [H _]); assumption. Qed.
+  Lemma pre_node v : pre v = true ->
+    has_bool (gsig v) = false /\ node_tail e v = false /\ node_empty_offsets e v = false /\ node_dict_key e v = false
+    /\ len (gvb e v) < 2 ^ 60.
+  Proof.
+    intros H. apply all_nodes_head in H. unfold node_pre in H.
+    apply andb_true_iff in H as [H _]. apply andb_true_iff in H as [H1 H2].
+    apply negb_true_iff in H1. unfold node_known in H1.
+    apply orb_false_iff in H1 as [H1 Hd]. apply orb_false_iff in H1 as [H1 Hc]. apply orb_false_iff in H1 as [Ha Hb].
+    apply N.ltb_lt in H2. unfold node_bool in Ha. tauto.
+  Qed.
+  Lemma pre_align v : pre v = true -> gwf v = true -> align_gv (gsig v) = galign (gsig v).
+  Proof. intros Hp Hw. apply align_gv_spec; [apply pre_node in Hp; tauto|now apply gwf_single]. Qed.
+
+  (* restoring signature and depth around a nested serialization *)
+  Lemma reframe st b b' g d g0 d0 :
+    g0 = g_sig st -> d0 = g_dep st ->
+    gset_sig (gset_dep (gwr (gset_dep (gset_sig (gwr st b) g) d) b') d0) g0 = gwr st (b ++ b').
+  Proof. intros -> ->. rewrite <- gwr_gwr. destruct st; reflexivity. Qed.
+
+  Lemma good_nothing cs : good (GMaybe cs None).
+  Proof.
+    intros st He Hw Hp Hs Hv Hd Hf. cbn [sval_of gser]. unfold gmaybe_begin. rewrite gpadded_gwr.
+    cbn [g_sig gwr]. rewrite Hs. rewrite (pre_align _ Hp Hw). cbn [gsig bind gvb]. now rewrite app_nil_r.
+  Qed.
+
+  Lemma good_just cs x : good x -> good (GMaybe cs (Some x)).
+  Proof.
+    intros IH st He Hw Hp Hs Hv Hd Hf. cbn [sval_of gser]. unfold gmaybe_begin. rewrite gpadded_gwr.
+    cbn [g_sig gwr]. rewrite Hs. rewrite (pre_align _ Hp Hw). cbn [gsig bind galign].
+    cbn [gwf] in Hw. apply andb_true_iff in Hw as [Hw Hsx]. apply andb_true_iff in Hw as [Hcs Hwx].
+    apply sig_eqb_eq in Hsx.
+    unfold pre in Hp. cbn [all_nodes] in Hp. apply andb_true_iff in Hp as [Hn Hpx]. fold (pre x) in Hpx.
+    unfold gfits in Hf. cbn [gdepth_ok] in Hf. apply andb_true_iff in Hf as [Hf1 Hf2]. apply N.leb_le in Hf1.
+    destruct (inc_maybe_good _ Hd Hf1) as (d' & Hinc & Hdec & Hd' & Hs' & Ha' & Ht').
+    autorewrite with gst. rewrite Hinc. cbn [bind].
+    set (st1 := gset_dep _ d').
+    assert (Habs : gabs st1 mod galign (gsig x) = 0).
+    { subst st1. autorewrite with gst. rewrite len_pad, Hsx. apply padn_after, galign_nz. }
+    rewrite (IH st1); try assumption; try reflexivity.
+    2:{ subst st1. autorewrite with gst. symmetry. assumption. }
+    2:{ subst st1. unfold gfits. autorewrite with gst. rewrite Hs', Ha', Ht'. assumption. }
+    cbn [bind]. rewrite (pad_aligned _ _ (galign_nz _) Habs). cbn [app].
+    subst st1. cbn [g_dep gwr gset_dep]. rewrite Hdec.
+    cbn [galign gsig gvb]. rewrite fixed_sized_spec.
+    destruct (gis_fixed cs).
+    - rewrite app_nil_r. apply f_equal. destruct st; cbn in *. subst. unfold gwr; cbn. f_equal.
+      + now rewrite !rev_append_rev, rev_app_distr, app_assoc.
+      + rewrite len_app. lia.
+    - apply f_equal. destruct st; cbn in *. subst. unfold gwr; cbn. f_equal.
+      + rewrite !rev_append_rev, !rev_app_distr. cbn. now rewrite <- !app_assoc.
+      + rewrite !len_app. cbn. lia.
+  Qed.
+End P.
